@@ -49,11 +49,12 @@ package dig
 // every occurrence lies in one of the listed functions.
 
 //@ scan[C02:called-flag-write-sites,C07:called-flag-write-sites] stores constructorNode.called <= (*dig.constructorNode).Call
+//@ scan[C02:being-built-marker-write-sites,C05:being-built-marker-write-sites] stores constructorNode.onStack <= (*dig.constructorNode).Call, (*dig.constructorNode).Call$1
 //@ scan[C02:decorator-state-write-sites,C07:decorator-state-write-sites,C12:decorator-state-write-sites] stores decoratorNode.state <= (*dig.decoratorNode).Call, (*dig.decoratorNode).Call$1
 //@ scan[C03:user-functions-run-only-in-defaultInvoker,C17:user-functions-run-only-in-defaultInvoker] calls (reflect.Value).Call <= dig.defaultInvoker
 //@ scan[C03:no-CallSlice,C17:no-CallSlice] calls (reflect.Value).CallSlice <= none
 //@ scan[C03:invoker-call-sites,C17:invoker-call-sites] calls-of-type dig.invokerFn <= (*dig.Scope).Invoke, (*dig.constructorNode).Call, (*dig.decoratorNode).Call
-//@ scan[C03:callback-call-sites,C20:callback-call-sites] calls-of-type dig.Callback <= (*dig.constructorNode).Call$1, (*dig.decoratorNode).Call$2
+//@ scan[C03:callback-call-sites,C20:callback-call-sites] calls-of-type dig.Callback <= (*dig.constructorNode).Call$2, (*dig.decoratorNode).Call$2
 //@ scan[C03:provider-call-sites,C02:provider-call-sites] invokes dig.provider.Call <= (dig.paramGroupedSlice).callGroupProviders, (dig.paramSingle).Build
 //@ scan[C03:decorator-call-sites,C02:decorator-call-sites,C12:decorator-call-sites] invokes dig.decorator.Call <= (dig.paramGroupedSlice).callGroupDecorators, (dig.paramSingle).buildWithDecorators
 //@ scan[C03:no-direct-constructor-calls] calls (*dig.constructorNode).Call <= none
@@ -61,9 +62,9 @@ package dig
 //@ scan[C17:invoker-write-sites] stores Scope.invokerFn <= (*dig.Scope).Scope, (dig.dryRunOption).applyOption, dig.newScope
 //@ scan[C17:invoker-read-sites] loads Scope.invokerFn <= (*dig.Scope).Invoke, (*dig.Scope).Scope, (*dig.Scope).invoker
 //@ scan[C17:values-are-looked-at-only-here,C01:values-are-looked-at-only-here] methodcalls reflect.Value <= (*dig.Scope).Invoke:Interface, (*dig.Scope).Invoke:Type, (dig.paramObject).Build:Elem, (dig.paramObject).Build:Field, (dig.paramObject).Build:Set, (dig.resultGrouped).Extract:Index, (dig.resultGrouped).Extract:Len, (dig.resultList).ExtractList:Interface, (dig.resultObject).Extract:Field, dig.defaultInvoker:Call, dig.dryInvoker:Type, dig.newConstructorNode:Pointer, dig.newConstructorNode:Type, dig.newDecoratorNode:Pointer, dig.newDecoratorNode:Type, digreflect.InspectFunc:Pointer
-//@ scan[C13:recover-sites] builtin recover <= (*dig.Scope).Invoke$1, (*dig.constructorNode).Call$2, (*dig.decoratorNode).Call$3
-//@ scan[C13:cycle-error-construction-sites,C05:cycle-error-construction-sites] allocs dig.errCycleDetected <= (*dig.Scope).cycleDetectedError, (dig.errCycleDetected).Error, dig.IsCycleDetected
-//@ scan[C13:panic-error-construction-sites] allocs dig.PanicError <= (*dig.Scope).Invoke$1, (*dig.constructorNode).Call$2, (*dig.decoratorNode).Call$3, (dig.PanicError).Format
+//@ scan[C13:recover-sites] builtin recover <= (*dig.Scope).Invoke$1, (*dig.constructorNode).Call$3, (*dig.decoratorNode).Call$3
+//@ scan[C13:cycle-error-construction-sites,C05:cycle-error-construction-sites] allocs dig.errCycleDetected <= (*dig.Scope).cycleDetectedError, (*dig.constructorNode).Call, (dig.errCycleDetected).Error, dig.IsCycleDetected
+//@ scan[C13:panic-error-construction-sites] allocs dig.PanicError <= (*dig.Scope).Invoke$1, (*dig.constructorNode).Call$3, (*dig.decoratorNode).Call$3, (dig.PanicError).Format
 //@ scan[C13:unwrap-method-set] methods Unwrap == dig.errArgumentsFailed, dig.errConstructorFailed, dig.errInvalidInput, dig.errMissingDependencies, dig.errParamGroupFailed, dig.errParamSingleFailed, dig.errProvide
 //@ scan[C07:value-cache-write-sites,C01:value-cache-write-sites] mapwrites Scope.values <= (*dig.Scope).setValue
 //@ scan[C07:group-cache-write-sites,C10:group-cache-write-sites] mapwrites Scope.groups <= (*dig.Scope).submitGroupedValue
@@ -161,13 +162,14 @@ package dig
 // ---------------------------------------------------------------------------
 // the resolution knot: frame shared by BuildList / Build / Call
 
-//@ locset knot = constructorNode.called, decoratorNode.state, map(Scope.values), map(Scope.groups), map(Scope.decoratedGroups), elems(reflect.Value), @events, $nset, $setDst, $setSrc
+//@ locset knot = constructorNode.called, constructorNode.onStack, decoratorNode.state, map(Scope.values), map(Scope.groups), map(Scope.decoratedGroups), elems(reflect.Value), @events, $nset, $setDst, $setSrc
 
 // What every function of the knot guarantees about the rest of the world
 // (two-state): constructors stay called, decorators that are on the stack stay
 // on the stack, the event logs only grow.
 //@ pure func knotMono() Bool =
 //@   (forall m *constructorNode :: old(m.called) ==> m.called)
+//@   && (forall m *constructorNode :: m.onStack == old(m.onStack))
 //@   && (forall d *decoratorNode :: old(d.state) == decoratorOnStack ==> d.state == decoratorOnStack)
 //@   && (forall d *decoratorNode :: old(d.state) == decoratorCalled ==> d.state == decoratorCalled)
 //@   && $nrun >= old($nrun) && $ev >= old($ev) && $ncb >= old($ncb) && $nset >= old($nset)
@@ -205,13 +207,15 @@ package dig
 //@   allocates
 //@   maypanic
 //@   let dflt = as(c, ptr(Scope)).invokerFn == defaultInvoker
+//@   ensures[C02:a-constructor-being-built-is-not-entered-again,C05:a-constructor-being-built-is-not-entered-again] !old(n.called) && old(n.onStack) ==> err != nil && chainHasCycle(err) && unchangedAll()
+//@        && $nrun == old($nrun) && $ncb == old($ncb) && $ev == old($ev)
 //@   ensures[C02:noop-when-called] old(n.called) ==> err == nil && unchangedAll() && $nrun == old($nrun) && $ncb == old($ncb) && $ev == old($ev)
 //@   ensures[C02:success-means-called] err == nil ==> n.called
 //@   ensures[C07:called-only-on-success] reached(BuildList_1) && err != nil ==> n.called == at(BuildList_1, n.called)
 //@   ensures[C07:fail-commits-nothing] reached(BuildList_1) && err != nil ==> sameSince(BuildList_1, map(Scope.values), map(Scope.groups), map(Scope.decoratedGroups))
 //@   ensures[C03:at-most-one-run] reached(BuildList_1) ==> $nrun <= at(BuildList_1, $nrun) + 1
 //@   ensures[C03:no-run-without-args] !reached(BuildList_1) || ret(BuildList_1, 1) != nil ==> $nrun == at(BuildList_1, $nrun) && $ncb == at(BuildList_1, $ncb)
-//@   ensures[C04:missing-deps-no-run] !old(n.called) && !reached(BuildList_1) ==> err != nil && is(err, errMissingDependencies) && $nrun == old($nrun) && $ncb == old($ncb) && unchangedAll()
+//@   ensures[C04:missing-deps-no-run] !old(n.called) && !old(n.onStack) && !reached(BuildList_1) ==> err != nil && is(err, errMissingDependencies) && $nrun == old($nrun) && $ncb == old($ncb) && unchangedAll()
 //@   ensures[C01:runs-own-ctor-with-built-args] reached(invokerFn_1) && dflt ==> $nrun == at(BuildList_1, $nrun) + 1
 //@        && $runFn[at(BuildList_1, $nrun)] == valueOf(n.ctor) && $runArgs[at(BuildList_1, $nrun)] == ret(BuildList_1, 0)
 //@   ensures[C13:ctor-error-is-root-cause] reached(ExtractList_1) && ret(ExtractList_1, 0) != nil ==> is(err, errConstructorFailed)
